@@ -270,10 +270,11 @@ contract(
     ensures=[
         "result.shape[0] == shape_native[0]", "result.shape[1] == shape_native[1]",
         # 0.0 (False) exactly at the listed pixels, 1.0 (True) everywhere else
-        "forall(0, K, lambda k: result[T[k, 0], T[k, 1]] == 0)",
+        "forall(0, K, lambda k: result[T[k, 0], T[k, 1]] == 0, pat=(T[k, 0], T[k, 1]))",
         "forall(0, shape_native[0], lambda y: forall(0, shape_native[1], lambda x:"
-        " implies(forall(0, K, lambda k: not (T[k, 0] == y and T[k, 1] == x)), result[y, x] == 1)))",
-        "forall(0, shape_native[0], lambda y: forall(0, shape_native[1], lambda x: result[y, x] == 0 or result[y, x] == 1))",
+        " implies(forall(0, K, lambda k: not (T[k, 0] == y and T[k, 1] == x)), result[y, x] == 1), pat=result[y, x]))",
+        "forall(0, shape_native[0], lambda y: forall(0, shape_native[1], lambda x: result[y, x] == 0 or result[y, x] == 1,"
+        " pat=result[y, x]))",
     ],
     loops={0: {"inv": [
         "forall(0, index, lambda k: mask[T[k, 0], T[k, 1]] == 0)",
@@ -453,12 +454,14 @@ corollary("C01.native_for_slim_bijection", props=["C01"],
 corollary("C01.mask_from_native_for_slim", props=["C01"],
           vars={"M": "bool[2]", "Ti": "int[2]"}, let={"H": "M.shape[0]", "W": "M.shape[1]"},
           requires=["Ti.shape[0] == total(M)", "Ti.shape[1] == 2",
-                    "forall(0, total(M), lambda k: Ti[k, 0] == pixy(M, k) and Ti[k, 1] == pixx(M, k))"],
+                    "forall(0, total(M), lambda k: Ti[k, 0] == pixy(M, k) and Ti[k, 1] == pixx(M, k), pat=(Ti[k, 0], Ti[k, 1]))"],
           calls=[("R", M2 + "mask_2d_via_shape_native_and_native_for_slim", {"shape_native": "(H, W)", "native_for_slim": "Ti"})],
           ensures=["R.shape[0] == H and R.shape[1] == W",
-                   # (first conjunct: the witness -- an unmasked pixel is listed at its own rank)
+                   # unmasked pixels (first conjuncts: the witness -- an unmasked pixel is listed at its own rank) ...
                    "forall(0, H, lambda y: forall(0, W, lambda x: implies(not M[y, x], cnt2(M, y, x) < total(M)"
-                   " and Ti[cnt2(M, y, x), 0] == y and Ti[cnt2(M, y, x), 1] == x) and R[y, x] == (1 if M[y, x] else 0)))"],
+                   " and Ti[cnt2(M, y, x), 0] == y and Ti[cnt2(M, y, x), 1] == x and R[y, x] == 0)))",
+                   # ... and masked pixels (no entry of the table is a masked pixel: lemma pixx.surj)
+                   "forall(0, H, lambda y: forall(0, W, lambda x: implies(M[y, x], R[y, x] == 1)))"],
           sentence="the mask rebuilt from the slim-to-native table is the mask itself")
 
 # flat index <-> (y,x) index conversions are mutually inverse on valid pixel indices (F is real-valued; Fi is the same
